@@ -1579,7 +1579,8 @@ class BuildManager:
 
 
 def deps_to_json(x: dict[str, set[str]]) -> bytes:
-    return json_dumps({k: list(v) for k, v in x.items()})
+    # Sort the targets so that the cache files don't depend on set iteration order.
+    return json_dumps({k: sorted(v) for k, v in x.items()})
 
 
 # File for storing metadata about all the fine-grained dependency caches
